@@ -201,6 +201,27 @@ def stepLine (line : String) : M String := do
     | some s' =>
       set { w with s := some s' }
       return endLine s' (s'.panics - s.panics) (s'.rets.drop s.rets.length)
+  | "iphase" :: k :: _ :: _ :: rest, some s =>
+    -- `iphase K NI SEED`: K callers, NI of them through netpoll.Initialize() = one Pick each whose result is dropped
+    -- (Tie.Manager.entry_points); the model runs K picks.  Which of the K results were dropped is not observable, so the
+    -- `rets=` field of this line is not compared (lib/mgrrun.py); the dump – slice, balancer, round-robin counter advanced
+    -- by K, census, closed set – is.
+    let rs := match getField rest "r=" with
+      | some l => (l.splitOn ",").filter (· ≠ "") |>.map toNat!
+      | none => []
+    let rec goI (i : Nat) (rs : List Nat) (s : S) : Option S :=
+      match i with
+      | 0 => some s
+      | i + 1 =>
+        if s.status = 1 && s.runners.length = 0 && s.cCas2 = 0 then none else
+        match soloPick s (rs.headD 0) with
+        | none => none
+        | some s' => goI i rs.tail s'
+    match goI (toNat! k) rs s with
+    | none => set { w with dead := true }; return "hang"
+    | some s' =>
+      set { w with s := some s' }
+      return endLine s' (s'.panics - s.panics) (s'.rets.drop s.rets.length)
   | ["reset"], some s =>
     match resetSeq s with
     | none => set { w with dead := true }; return "panic"
@@ -363,6 +384,11 @@ def specLine (op impl : String) : StateM SW String := do
       let panics := ((getField rest "panics=").map toNat!).getD 1
       let rets := parsePairs ((getField rest "rets=").getD "")
       let alive := parseNats ((getField rest "alive=").getD "")
+      match otoks with
+      | "iphase" :: k :: ni :: _ =>
+        if phaseInitOK o panics (toNat! k - toNat! ni) rets alive then return "OK"
+        else return "IMPL-SPEC-FAIL phase with Initialize() callers: " ++ impl
+      | _ =>
       if phaseOK o panics rets alive then return "OK" else return "IMPL-SPEC-FAIL phase: " ++ impl
     | _ => return "OK"
 
